@@ -51,7 +51,8 @@ def gen_ops(rnd, n):
 def run(R, only=None):
     snap = R.snapshot()
     R.trusted_base += ["Coq 8.16.1 kernel", "harness/snapshot.py: AST scan for call-time writes to module-level state (global statements, stores into and mutating calls on "
-                       "module-level objects, lru_cache/cache decorators, mutable default arguments)", "harness/impl_history.py (fresh process / after history / 8 threads, switchinterval 1e-6)"]
+                       "module-level objects, lru_cache/cache decorators, mutable default arguments)", "harness/impl_history.py (fresh process / after history / 8 threads, switchinterval 1e-6; forced interleavings through gates inside user callbacks: "
+                       "str() of table cells and metric values, __getstate__ during dumps, __setstate__ during loads)"]
     R.assumptions += ["true preemption inside C extensions, free-threaded builds, functools.singledispatch's internal cache and zipfile internals cannot be exhibited by the model; "
                       "the thread runs exercise CPython's GIL scheduling only",
                       "a Section object handed to Card.add is aliased, not copied (the one sharing channel between cards; stated, not a violation)"]
@@ -113,6 +114,12 @@ def run(R, only=None):
                 if res[i] != base:
                     R.violation({"kind": "schedule-dependent", "op": op[0]}, f"{op[0]} in thread {t} gave {str(res[i])[:200]}, sequentially {str(base)[:200]}", {"batch": b, "index": i})
                     break
+        for fr in o.get("forced", []):
+            R.count("forced:" + fr["scenario"] + (":ok" if fr.get("ok") else ":differs"))
+            if not fr.get("ok"):
+                R.violation({"kind": "schedule-dependent", "op": "forced:" + fr["scenario"]},
+                            f"with both threads held inside the same call ({fr['scenario']}), thread {fr['thread']} got {fr['interleaved'][:200]}; alone it gets {fr['sequential'][:200]}",
+                            {"forced": fr, "batch": b})
         if o["module_state_changed"]:
             R.violation({"kind": "module-state-changed", "what": sorted(o["module_state_changed"])[:3]}, f"module-level state differs after the calls: {json.dumps(o['module_state_changed'])[:300]}", {"batch": b})
         if not o["cards_independent"]:
